@@ -454,6 +454,25 @@ def canon_position_chunks(fnode):
         changed = True
     if not changed:
         return None
+
+    class Ident(ast.NodeTransformer):
+        # [x for x in ITEMS] over the chunk's items is the chunk (a list either way)
+        def visit_ListComp(self, n):
+            self.generic_visit(n)
+            if len(n.generators) == 1 and not n.generators[0].ifs and isinstance(n.generators[0].target, ast.Name) and isinstance(n.elt, ast.Name) \
+                    and n.elt.id == n.generators[0].target.id and isinstance(n.generators[0].iter, ast.Name) and n.generators[0].iter.id == f"{P}__items":
+                return n.generators[0].iter
+            return n
+    node = Ident().visit(node)
+    # a local that is now just another name of the chunk reads as the chunk
+    alias = [st.targets[0].id for st in ast.walk(node) if isinstance(st, ast.Assign) and len(st.targets) == 1 and isinstance(st.targets[0], ast.Name)
+             and isinstance(st.value, ast.Name) and st.value.id == f"{P}__items"]
+    sd = single_defs(node)
+    for a_ in alias:
+        if a_ in sd:
+            for x in ast.walk(node):
+                if isinstance(x, ast.Name) and x.id == a_ and isinstance(x.ctx, ast.Load):
+                    x.id = f"{P}__items"
     # the definition of P becomes the definition of the chunk itself
     for st in ast.walk(node):
         if isinstance(st, ast.Assign) and len(st.targets) == 1 and isinstance(st.targets[0], ast.Name) and st.targets[0].id == P:
